@@ -1,17 +1,23 @@
 """C01 — assigned values always lie in the trait's declared domain (see validate_common.py, spec/Validate.tla; Array /
-CArray / ArrayOrNone traits: array_common.py, spec/ArrayTrait.tla)."""
+CArray / ArrayOrNone traits: array_common.py, spec/ArrayTrait.tla; This, Module, Date, Datetime, Time, UUID, File,
+Directory, Expression: more_types.py, spec/MoreTypes.tla)."""
 import json
 
 from . import validate_common as vc
 from . import array_common as ac
+from . import more_types as mt
 
 
 def run(rep, tier, seed):
     vc.run_for(rep, tier, seed, "C01")
     rule = rep.rule
+    mt.run_for(rep, tier, seed, "C01")
     ac.run_for(rep, tier, seed)
-    rep.rule = rule + ("; Array / CArray / ArrayOrNone: every (dtype, shape pattern, casting rule, value) state of ArrayTraitMC "
-                       "instantiated with numpy values, judged by TLC against Py / InDomain / Default of ArrayTrait.tla")
+    rep.rule = rule + ("; This / self, Module, Date, Datetime, Time, UUID, File, Directory, Expression: every (configuration, "
+                       "value, route) state of MoreTypesMC on real values (temporary files, paths, dates, ...), judged against "
+                       "Validate / Assign / InDomain of MoreTypes.tla; Array / CArray / ArrayOrNone: every (dtype, shape "
+                       "pattern, casting rule, value) state of ArrayTraitMC instantiated with numpy values, judged by TLC "
+                       "against Py / InDomain / Default of ArrayTrait.tla")
 
 
 def replay(rep, path):
@@ -19,4 +25,6 @@ def replay(rep, path):
     rec = (obj.get("case") or {}).get("record") or {}
     if "v" in rec and "tok" not in rec:
         return ac.replay_record(rec)
+    if isinstance(rec.get("tok"), dict):
+        return mt.replay_record(rec)
     return vc.replay(rep, path)
